@@ -1,17 +1,18 @@
-\* C15 / MemRW.tla -- (G) simulated histories (Debugger API operations) at word size 8
+\* C15 / MemRW.tla -- (E) variable writes, histories of 2 ops
 CONSTANTS
     W = 8
     Lo = 8
-    Hi = 32
-    MaxN = 17
-    MaxOps = 3
-    OpKinds = {"R", "WW"}
+    Hi = 88
+    MaxN = 1
+    MaxOps = 2
+    OpKinds = {"WV"}
     DataKinds = {"pat", "inv"}
     ReadVariant = "tail"
-    Emit = "hist"
+    Emit = "none"
     Regs = {}
-    InitMem = "pattern"
+    InitMem = "pack"
     DisVariant = "masked"
 SPECIFICATION SpecMem
 VIEW View
 INVARIANTS MemoryMatchesSpec UnmappedNeverChanges
+PROPERTIES WritesMeetSpec NeighboursUntouched
